@@ -247,6 +247,11 @@ Definition ext_times (grads : list grad) : list Q :=
 Definition ext_sum (grads : list grad) : pwl :=
   let T := ext_times grads in psum_on T (map (prep T) grads).
 
+(* add_gradients.py:233-234: `delays == common_delay` / `durs == durs.max()` (ag_startend_tol = 0) or
+   `np.abs(... - ...) < eps` (ag_startend_tol = eps), whichever the source has *)
+Definition same_time (a b : Q) : bool :=
+  if Qeq_bool ag_startend_tol 0 then Qeq_bool a b else Qltb (Qabs (a - b)) ag_startend_tol.
+
 Definition raster_sum (s : sys) (grads : list grad) : list Q :=
   let cd := minl (map g_delay grads) in
   fold_left vadd (map (raster_samples s cd) grads) [].
@@ -279,8 +284,8 @@ Definition add_gradients (s : sys) (max_grad_arg max_slew_arg : Q) (grads : list
       let ms3 := if ag_arb_passes_limits then ms else s_max_slew s in
       let cd := minl (map g_delay grads) in
       let dmax := maxl (map g_dur grads) in
-      let first := sumQ (map g_first (filter (fun g => Qeq_bool (g_delay g) cd) grads)) in
-      let last := sumQ (map g_last (filter (fun g => Qeq_bool (g_dur g) dmax) grads)) in
+      let first := sumQ (map g_first (filter (fun g => same_time (g_delay g) cd) grads)) in
+      let last := sumQ (map g_last (filter (fun g => same_time (g_dur g) dmax) grads)) in
       match make_arb s mg3 ms3 (raster_sum s grads) cd first last with
       | OK g => OK (P_raster, g) | Err e => Err e end
   end.
